@@ -153,6 +153,144 @@ func c17h(c *Ctx) {
 			}
 		})
 	}
+	// (2c) errors end the run: every error a function of package main obtains is compared with
+	// nil, and the branch on which it is not nil exits (log.Fatal*, os.Exit) or hands the error
+	// back — it does not fall through to the next stage with a half-made result
+	nErr := 0
+	for _, fn := range mains {
+		for _, ci := range callsIn(fn) {
+			call, isCall := ci.(*ssa.Call)
+			if !isCall {
+				continue
+			}
+			res := call.Call.Signature().Results()
+			if res.Len() == 0 || !isErrorType(res.At(res.Len()-1).Type()) {
+				continue
+			}
+			if n := calleeName(call); strings.HasPrefix(n, "fmt.") || strings.HasPrefix(n, "io.WriteString") {
+				if res.Len() == 2 && strings.HasPrefix(n, "fmt.") {
+					continue // fmt.Print*'s own error: stdout
+				}
+			}
+			var errV ssa.Value = call
+			if res.Len() > 1 {
+				errV = nil
+				if call.Referrers() != nil {
+					for _, r := range *call.Referrers() {
+						if ex, ok := r.(*ssa.Extract); ok && ex.Index == res.Len()-1 {
+							errV = ex
+						}
+					}
+				}
+			}
+			nErr++
+			key := fmt.Sprintf("errors-end-the-run/%s@%s#%d", fn.Name(), calleeName(call), c.T(fn).callOrd[ci])
+			if errV == nil || errV.Referrers() == nil {
+				c.Bad(key, c.W.Pos(call.Pos()), fn.Name()+" ignores the error of "+calleeName(call))
+				continue
+			}
+			handled := false
+			var follow func(v ssa.Value, depth int)
+			follow = func(v ssa.Value, depth int) {
+				if v.Referrers() == nil || depth > 3 {
+					return
+				}
+				for _, r := range *v.Referrers() {
+					switch y := r.(type) {
+					case *ssa.Return:
+						handled = true
+					case *ssa.Phi:
+						follow(y, depth+1)
+					case ssa.CallInstruction:
+						// handed to a helper of package main that does the test (`exitOnError(err)`)
+						if g := callee(y); g != nil && g.Pkg != nil && g.Pkg.Pkg.Name() == "main" && len(g.Blocks) > 0 {
+							for i, a := range y.Common().Args {
+								if a == v && i < len(g.Params) {
+									follow(g.Params[i], depth+1)
+								}
+							}
+						}
+					case *ssa.BinOp:
+						if !isNilConst(y.X) && !isNilConst(y.Y) {
+							continue
+						}
+						if y.Referrers() == nil {
+							continue
+						}
+						for _, r2 := range *y.Referrers() {
+							ifi, isIf := r2.(*ssa.If)
+							if !isIf {
+								continue
+							}
+							bad := ifi.Block().Succs[0]
+							if y.Op.String() == "==" {
+								bad = ifi.Block().Succs[1]
+							}
+							// the failing branch ends the run or returns the error
+							for _, in := range bad.Instrs {
+								switch z := in.(type) {
+								case ssa.CallInstruction:
+									if n := calleeName(z); strings.HasPrefix(n, "log.Fatal") || n == "os.Exit" || strings.HasPrefix(n, "log.Panic") {
+										handled = true
+									}
+								case *ssa.Return:
+									if len(z.Results) > 0 && !isNilConst(z.Results[len(z.Results)-1]) {
+										handled = true
+									}
+								case *ssa.Panic:
+									handled = true
+								}
+							}
+						}
+					}
+				}
+			}
+			follow(errV, 0)
+			c.Check(handled, key, c.W.Pos(call.Pos()), "a failure of "+calleeName(call)+" ends the run (or is handed back)", fn.Name()+" goes on after "+calleeName(call)+" has failed (the branch on which the error is not nil neither exits nor returns it): the run continues with a half-made result, or stops although nothing went wrong")
+		}
+	}
+	c.Check(nErr >= 5, "errors-end-the-run/census", "-", fmt.Sprintf("%d error results of package main followed", nErr), fmt.Sprintf("only %d error results found in package main", nErr))
+	// (2d) standard input / output exactly when no path was given
+	for _, fn := range mains {
+		for _, ci := range callsIn(fn) {
+			n := calleeName(ci)
+			var wantEmpty, isIO bool
+			switch n {
+			case "fmt.Print", "io/ioutil.ReadAll", "io.ReadAll":
+				wantEmpty, isIO = true, true
+			case "os.Create", "os.OpenFile", "io/ioutil.ReadFile", "os.ReadFile":
+				wantEmpty, isIO = false, true
+			}
+			if !isIO || len(fn.Params) == 0 {
+				continue
+			}
+			// only in the functions that choose between the two by a path parameter
+			var pathPar *ssa.Parameter
+			for _, p := range fn.Params {
+				if b, ok := p.Type().Underlying().(*types.Basic); ok && b.Kind() == types.String && strings.Contains(strings.ToLower(p.Name()), "path") {
+					pathPar = p
+				}
+			}
+			if pathPar == nil {
+				continue
+			}
+			pt := c.term(fn, pathPar)
+			has := ""
+			for _, l := range c.mustLits(fn, ci.Block()) {
+				l2 := normLit(l)
+				if strings.Contains(l2, pt) && (strings.Contains(l2, `== ""`) || strings.Contains(l2, "builtin:len("+pt+")")) {
+					has = l2
+				}
+			}
+			empty := has == normLit("+("+pt+` == "")`) || has == "-(0 < builtin:len("+pt+"))" || has == "+(builtin:len("+pt+") == 0)"
+			nonEmpty := has == normLit("-("+pt+` == "")`) || has == "+(0 < builtin:len("+pt+"))" || has == "-(builtin:len("+pt+") == 0)"
+			okSide := (wantEmpty && empty) || (!wantEmpty && nonEmpty)
+			if strings.HasPrefix(fn.Name(), "readCommandConfig") || has == "" && !wantEmpty && fn.Name() != "getInput" && fn.Name() != "writeOutput" {
+				continue
+			}
+			c.Check(okSide, fmt.Sprintf("std-streams-iff-no-path/%s@%s", fn.Name(), n), c.W.Pos(ci.Pos()), "standard input / output is used exactly when no path was given", fn.Name()+" calls "+n+" under ["+pretty(has)+"]: expected "+map[bool]string{true: "the path to be empty", false: "a path to be given"}[wantEmpty]+" — with the test the other way round the compiler reads (or overwrites) the wrong thing")
+		}
+	}
 	// (3) the output file is emptied when it is opened
 	for _, fn := range mains {
 		for _, ci := range callsIn(fn) {
